@@ -23,6 +23,7 @@ def main (args : List String) : IO UInt32 := do
   | ["model", "decoder"] => engineLoop (fun (_ : Unit) l => ((), (stepDecoder (splitWords l)).getD "bad-op")) () inp out; return 0
   | ["oracle", "C01st", o, i] => oracleLoop (oracleStation "C01") {} o i
   | ["oracle", "C05st", o, i] => oracleLoop (oracleStation "C05") {} o i
+  | ["oracle", "C06st", o, i] => oracleLoop (oracleStation "C06") {} o i
   | ["oracle", "C11st", o, i] => oracleLoop (oracleStation "C11") {} o i
   | ["oracle", "C12st", o, i] => oracleLoop (oracleStation "C12") {} o i
   | ["oracle", "C13st", o, i] => oracleLoop (oracleStation "C13") {} o i
